@@ -464,9 +464,9 @@ func (r *vC17Run) publish(s string, vals []vC17Val, fails []int, how string) ([]
 		}
 		r.wrapper.sites = nil
 		r.wrapper.mu.Unlock()
-	} else if len(fails) > 0 {
-		vC17Fail("seal failures need the wrapper")
 	}
+	// (without a handler to wrap - the partition does not encrypt - no failure can be injected:
+	// the step is executed as it is and recorded)
 	acks := make([]string, len(vals))
 	codes := make([]string, len(vals))
 	if how == "api" {
@@ -696,6 +696,9 @@ func (r *vC17Run) tamper(j int, reg string) string {
 			}
 			size := int(uint32(b[ms+24])<<24 | uint32(b[ms+25])<<16 | uint32(b[ms+26])<<8 | uint32(b[ms+27]))
 			msg := append([]byte{}, b[ms+28:ms+28+size]...)
+			if at+pos-(ms+28) >= len(msg) {
+				vC17Fail("tamper: the stored value was not located unambiguously")
+			}
 			msg[at+pos-(ms+28)] ^= mask
 			crc := crc32.Checksum(msg[4:], crc32.MakeTable(crc32.Castagnoli))
 			msg[0], msg[1], msg[2], msg[3] = byte(crc>>24), byte(crc>>16), byte(crc>>8), byte(crc)
@@ -758,9 +761,25 @@ func TestVerifC17Server(t *testing.T) {
 	}()
 	defer func() {
 		if x := recover(); x != nil {
+			tw.w.Flush()
 			if f, ok := x.(vC17Fatal); ok {
-				tw.w.Flush()
 				t.Fatalf("%s", f.msg)
+			}
+			// a panic raised by the harness itself is a harness fault (inconclusive); one raised by
+			// server code that the harness called goes on and ends the process like any other
+			pcs := make([]uintptr, 64)
+			frames := runtime.CallersFrames(pcs[:runtime.Callers(2, pcs)])
+			for {
+				fr, more := frames.Next()
+				if !strings.HasPrefix(fr.Function, "runtime.") {
+					if strings.HasSuffix(fr.File, "_verif_test.go") {
+						t.Fatalf("INCONCLUSIVE: harness panic: %v (%s:%d)", x, fr.File, fr.Line)
+					}
+					break
+				}
+				if !more {
+					break
+				}
 			}
 			panic(x)
 		}
